@@ -3110,9 +3110,12 @@ class Trimesh(Geometry3D):
         degree : (len(self.vertices), ) int
           Number of faces each vertex is included in
         """
-        # get degree through sparse matrix
-        degree = np.array(self.faces_sparse.sum(axis=1)).flatten()
-        return degree
+        faces = self.faces.view(np.ndarray)
+        # a face which repeats a vertex still only contains it once
+        first = np.ones(faces.shape, dtype=bool)
+        first[:, 1] = faces[:, 1] != faces[:, 0]
+        first[:, 2] = (faces[:, 2] != faces[:, 0]) & (faces[:, 2] != faces[:, 1])
+        return np.bincount(faces[first], minlength=len(self.vertices))
 
     @cache_decorator
     def face_adjacency_tree(self) -> Index:
